@@ -13,6 +13,7 @@ from lib.driver import Ob, run_worker  # noqa: E402
 budget = int(sys.argv[1]) if len(sys.argv) > 1 else 60
 workers = int(sys.argv[2]) if len(sys.argv) > 2 else 14
 culture = sys.argv[3] if len(sys.argv) > 3 else 'en-us'
+check = sys.argv[4] if len(sys.argv) > 4 else 'shape'
 LANG = {'en-us': 'English', 'es-es': 'Spanish', 'fr-fr': 'French', 'pt-br': 'Portuguese', 'zh-cn': 'Chinese', 'de-de': 'German', 'it-it': 'Italian', 'nl-nl': 'Dutch'}[culture]
 qs = []
 for f in ('DateTimeModel.json',):
@@ -23,9 +24,39 @@ for f in ('DateTimeModel.json',):
 ob = Ob('screen', 'sx', 'harness.apidt:h_wellformed', timeout=budget)
 
 
+def tags_of(qs):
+    """one concrete run of the real model per input (reference 2016-11-07; outputs are only classified, never compared with the
+    corpus' expectations): which inputs yield a (start,end,duration) TIMEX ('range3'), a pair of candidates under an open TIMEX ('pair'),
+    a definite TIMEX ('definite')"""
+    import re
+    from datetime import datetime
+    from lib import env
+    env.setup_paths()
+    from recognizers_date_time import recognize_datetime
+    out = {}
+    for q in qs:
+        t = set()
+        try:
+            rs = recognize_datetime(q, culture, reference=datetime(2016, 11, 7, 10, 30))
+        except Exception:
+            rs = []
+        for r in rs:
+            vals = (r.resolution or {}).get('values', [])
+            for v in vals:
+                tx = v.get('timex', '')
+                if re.match(r'^\([^,]+,[^,]+,P[^,]+\)$', tx):
+                    t.add('range3')
+                if re.match(r'^(\d{4}-\d\d-\d\d)?(T\d\d(:\d\d)*)?$', tx) and tx:
+                    t.add('definite')
+            if len(vals) == 2 and vals[0].get('timex') == vals[1].get('timex') and re.match(r'^XXXX-(WXX-\d|\d\d-\d\d)$', vals[0].get('timex', '')):
+                t.add('pair')
+        out[q] = sorted(t)
+    return out
+
+
 def run(q):
     t = time.time()
-    r = run_worker('run', ob, {'q': q, 'culture': culture}, budget, budget + 60, {})
+    r = run_worker('run', ob, {'q': q, 'culture': culture, 'check': check}, budget, budget + 60, {})
     return q, r.get('state'), round(time.time() - t, 1), str(r.get('detail'))[:200]
 
 
@@ -37,8 +68,11 @@ with ThreadPoolExecutor(workers) as ex:
             print(st, repr(q), det, flush=True)
 out.sort(key=lambda x: (x['wall'], x['q']))
 name = '/verif/harness/c11_inputs.json' if culture == 'en-us' else '/verif/harness/c11_inputs_%s.json' % culture
+if check not in ('shape', 'all'):
+    name = '/tmp/c11_screen_%s_%s.json' % (culture, check)
+tags = tags_of(qs)
 json.dump({'_comment': '%s DateTimeModel Specs inputs screened by tools/screen_c11.py (budget %d s); expected outputs of the corpus are not used' % (LANG, budget),
-           'budget_s': budget, 'discharged': [{'q': x['q'], 'wall': x['wall']} for x in out],
+           'budget_s': budget, 'check': check, 'discharged': [{'q': x['q'], 'wall': x['wall'], 'tags': tags.get(x['q'], [])} for x in out],
            'counterexample': [x for x in other if x['state'] == 'counterexample'], 'slow': [x['q'] for x in other if x['state'] == 'inconclusive'],
            'other': [x for x in other if x['state'] not in ('counterexample', 'inconclusive')]}, open(name, 'w'), indent=0, ensure_ascii=False)
 print('discharged', len(out), 'other', len(other))
